@@ -114,6 +114,22 @@ raw_b('h_remove', ['C01', 'C06', 'C13', 'C10', 'C03'], ['RawTable::remove', 'Raw
 raw_b('h_iter', ['C09', 'C02'], ['RawTableInner::iter', 'RawIterRange::new', 'RawIterRange::next_impl', 'RawIter::next', 'RawIter::size_hint'],
       'RawIter: exactly the full buckets in ascending order, exact size_hint at every step, None after exhaustion')
 
+raw_b('h_clear', ['C08', 'C01'], ['RawTable::clear', 'RawTableInner::clear_no_drop'],
+      'clear: all buckets EMPTY, counters reset, same allocation (an already empty table is left as it was)')
+raw_b('h_iter_fold', ['C09'], ['RawIter::fold', 'RawIterRange::fold_impl', 'RawIter::clone'],
+      'next() for any prefix then fold(): every full bucket exactly once; a clone reports the same remaining length')
+raw_b('h_drain', ['C10', 'C09', 'C02'], ['RawTable::drain', 'RawDrain::next', 'RawDrain::drop', 'RawTable::drain_iter_from'],
+      'drain consumed to any cut then dropped or leaked: valid empty table, same allocation, no tombstones, full capacity (leaked: unallocated)')
+raw_b('h_clone', ['C11'], ['RawTable::clone', 'RawTable::clone_from_impl'],
+      'clone: every bucket reproduced in a new allocation, source unchanged')
+raw_b('h_get_many2', ['C15'], ['RawTable::get_many_mut_pointers'],
+      'two-key lookup: each request resolves like find; the two pointers coincide exactly when the keys are equal')
+raw_b('h_iter_hash', ['C06'], ['RawIterHash::next', 'RawIterHashInner::next', 'RawIterHashInner::new'],
+      'iter_hash(h): only full buckets, none twice, every stored element with hash h, terminates',
+      sse2=(), generic=(), thorough_sse2=(4,), thorough_generic=())
+raw_b('h_replace_bucket_with', ['C14', 'C04'], ['RawTable::replace_bucket_with'],
+      'replace_bucket_with: Some keeps the slot (control byte, mirror, counters restored), None removes; frame; reachability')
+
 # ---- engine R: native evaluation of contracts on sampled states ----
 NATIVE = {}
 R_SIZES = (4, 8, 16, 32, 64)
@@ -143,6 +159,13 @@ R('r_reserve', ['C13', 'C08', 'C01', 'C06'], ['RawTable::reserve', 'RawTableInne
 R('r_insert_full_load', ['C14', 'C01', 'C06', 'C13'], ['RawTable::insert'],
   'insert when growth_left == 0 and the first slot found is EMPTY: after reserve(1) (in place or growing) the slot is searched again; new element and all others reachable',
   quick_iters=60000, thorough_iters=1500000)
+R('r_clear', ['C08', 'C01'], ['RawTable::clear'], 'clear contract on sampled states')
+R('r_iter_fold', ['C09'], ['RawIter::fold'], 'next-then-fold contract on sampled states')
+R('r_drain', ['C10', 'C09', 'C02'], ['RawTable::drain', 'RawDrain::drop'], 'raw drain contract on sampled states')
+R('r_clone', ['C11'], ['RawTable::clone'], 'raw clone contract on sampled states')
+R('r_get_many2', ['C15'], ['RawTable::get_many_mut_pointers'], 'two-key lookup contract on sampled states')
+R('r_iter_hash', ['C06'], ['RawIterHash::next'], 'iter_hash contract on sampled states (multi-group included)')
+R('r_replace_bucket_with', ['C14', 'C04'], ['RawTable::replace_bucket_with'], 'replace_bucket_with contract on sampled states')
 R('r_iter', ['C09'], ['RawIter::next', 'RawIter::size_hint'], 'RawIter contract on sampled states')
 R('r_map_lookup', ['C01', 'C18'], ['HashMap::get', 'HashMap::get_mut', 'HashMap::contains_key', 'HashMap::get_key_value', 'HashMap::get_key_value_mut', 'HashMap::index'],
   'HashMap lookups equal the association-list reference, also through an equivalent borrowed key; map unchanged')
